@@ -89,6 +89,21 @@ def noFloatm : List (Bytes × JV) → Bool
   | (_, x) :: kvs => noFloat x && noFloatm kvs
 end
 
+mutual
+/-- every `Float` in the value is finite -/
+def finiteFloats : JV → Bool
+  | .num (.float b) => Program.finite64 b
+  | .arr xs => finiteFloatss xs
+  | .obj kvs => finiteFloatsm kvs
+  | _ => true
+def finiteFloatss : List JV → Bool
+  | [] => true
+  | x :: xs => finiteFloats x && finiteFloatss xs
+def finiteFloatsm : List (Bytes × JV) → Bool
+  | [] => true
+  | (_, x) :: kvs => finiteFloats x && finiteFloatsm kvs
+end
+
 /-- the printer/parser pair returns this double: the text `ryu` prints for `b`, read as a number
     literal and converted by the configured algorithm, is `Float(b)` again -/
 def floatRT (cfg : Cfg) (ext : Program.Ext) (b : UInt64) : Bool :=
